@@ -273,7 +273,7 @@ theorem FI.rqMove (h : FI none pf s) (i : Nat) (st : Stmt) (rest : List Stmt) (h
 theorem FI.readQueue (hi : InjOK2 inj) (tsNow : Option Nat) (i : Nat) (fuel : Nat) :
     ∀ (total : Nat) (s : BSt), FI none pf s → FI none pf (Backend.readQueue inj tsNow i fuel total s) := by
   induction fuel with
-  | zero => intro total s h; exact h
+  | zero => intro total s h; rw [readQueue_zero]; exact h.same (same2_rqFin s i total)
   | succ n ih =>
     intro total s h
     rw [readQueue_succ]
